@@ -187,6 +187,12 @@ func TestVerifC08Deliver(t *testing.T) {
 		dir := vuFreshDir(base)
 		defer os.RemoveAll(dir)
 		start := vgen.StartTime(t)
+		if rapid.IntRange(0, 5).Draw(t, "futureStart") == 0 {
+			// a start time years ahead of the machine's clock (the documented way to simulate a future upload):
+			// every file the run creates then looks years old to it
+			start = start.AddDate(8, 0, 0)
+			vstats.Label("futureStart")
+		}
 		cfg := &telemetry.UploadConfig{GOOS: []string{"linux"}, GOARCH: []string{"amd64"}, GoVersion: []string{"go1.22.1"},
 			SampleRate: rapid.SampledFrom([]float64{1, 0}).Draw(t, "sampleRate"),
 			Programs:   []*telemetry.ProgramConfig{{Name: "cmd/go", Versions: []string{"go1.22.1"}, Counters: []telemetry.CounterConfig{{Name: "a/b", Rate: 1}}}}}
